@@ -11,6 +11,7 @@ import RdfModel.Props.C14
 #print axioms RdfModel.C14.provider_injective
 #print axioms RdfModel.C14.passthrough_own_label
 #print axioms RdfModel.C14.passthrough_injective_partial
+#print axioms RdfModel.C14.propagate_labels_uuid
 #print axioms RdfModel.C14.mapper_function
 #print axioms RdfModel.C14.mapper_injective
 #print axioms RdfModel.C14.mapper_fresh
